@@ -16,6 +16,7 @@
      VLoop.run_once               loop_once        (= BaseEventLoop._run_once)
    No proofs in this file. *)
 From Coq Require Import ZArith List Bool Arith.
+From C15 Require Import Generated.
 Import ListNotations.
 Open Scope Z_scope.
 
@@ -52,7 +53,7 @@ Definition timer0 := mk_timer 0 0 None 0 O.
 
 Inductive outcome := RetTrue | RetFalse | Raised.
 Inductive event :=
-| EvCreate (i : nat) (t I : Z)            (* .timer returned handler i at clock t, interval I *)
+| EvCreate (i : nat) (t iv : Z)            (* .timer returned handler i at clock t, interval iv *)
 | EvTick (i : nat) (t due : Z) (v : nat)  (* callback of timer i entered at clock t, from a loop handle armed for `due`; version v of its named function ran *)
 | EvEnd (i : nat) (t : Z) (o : outcome)   (* ... left at clock t *)
 | EvCancel (j : nat) (t : Z) (r : bool)   (* .timerc(handler j) returned r *)
@@ -128,11 +129,11 @@ Definition sys_timerc (j : nat) (w : world) : world * bool :=
   if (j <? w_nt w)%nat then handler_cancel j w else (w, false).
 
 (* _call_periodic (interval already validated, in clock units) *)
-Definition create_timer (cfg : config) (I : Z) (w : world) : world * list event :=
+Definition create_timer (cfg : config) (iv : Z) (w : world) : world * list event :=
   let i := w_nt w in
   let start := w_now w in
-  let '(w1, id) := if I =? 0 then call_soon (TRun i) w else call_at cfg (start + I) (TRun i) w in
-  (add_timer w1 (mk_timer I start (Some id) 1 (w_bind w i)), [EvCreate i start I]).
+  let '(w1, id) := if iv =? 0 then call_soon (TRun i) w else call_at cfg (start + iv) (TRun i) w in
+  (add_timer w1 (mk_timer iv start (Some id) 1 (w_bind w i)), [EvCreate i start iv]).
 
 (* eval_sys_fn_timer: argument checks, in the order of the source *)
 Inductive zkind := ZCall | ZFn | ZCallable | ZOther.
@@ -146,17 +147,17 @@ Definition is_none {A} (o : option A) : bool := match o with None => true | Some
 (* the re-arm branch of run *)
 Definition rearm (fl : flags) (cfg : config) (i : nat) (w : world) : world :=
   let t := w_tm w i in
-  let I := t_interval t in
+  let iv := t_interval t in
   let start := t_start t in
-  if I =? 0 then
+  if iv =? 0 then
     let '(w1, id) := call_soon (TRun i) w in set_delegate w1 i (Some id)
   else if f_mono fl then
-    let n' := Z.max (t_n t + 1) ((w_now w - start) / I + 1) in
-    let '(w1, id) := call_at cfg (start + n' * I) (TRun i) (set_n w i n') in
+    let n' := Z.max (t_n t + 1) ((w_now w - start) / iv + 1) in
+    let '(w1, id) := call_at cfg (start + n' * iv) (TRun i) (set_n w i n') in
     set_delegate w1 i (Some id)
   else
     (* call_later(delay) = call_at(time() + delay) *)
-    let '(w1, id) := call_at cfg (w_now w + (I - ((w_now w - start) mod I))) (TRun i) w in
+    let '(w1, id) := call_at cfg (w_now w + (iv - ((w_now w - start) mod iv))) (TRun i) w in
     set_delegate w1 i (Some id).
 
 (* the callback body (harness script) : clock advance + action *)
@@ -287,3 +288,6 @@ Definition simulate (fl : flags) (cfg : config) (t0 : Z) (xs : list (Z * ext)) (
   let '(w1, e1) := create_all cfg ts (arm_exts cfg xs (world0 t0)) in
   let '(w2, e2) := run_loop fl cfg fuel lats w1 in
   (w2, e1 ++ e2).
+
+(* the flags of the checked-out source *)
+Definition src_flags : flags := mk_flags gen_guard gen_clear gen_mono gen_resolve.
